@@ -471,16 +471,11 @@ Qed.
 
 (* ---- get_element_by_path *)
 Lemma get_element_by_path_ok w m p : Closed w -> m < N.of_nat (List.length (w_models w)) ->
-  rd (get_element_by_path m p) w (fun r => match r with Some e => e < w_next w | None => True end).
+  rd (get_element_by_path m p) w (fun _ => True).
 Proof.
-  intros C L. destruct (get_model_ok w m C L) as (x & E & _ & (_ & ID & _)). unfold get_element_by_path.
+  intros C L. destruct (get_model_ok w m C L) as (x & E & _ & _). unfold get_element_by_path.
   eapply rd_bind; [exists (OK x); split; [exact E|]; intros a [= <-]; exact (eq_refl x)|].
-  intros a <-. apply rd_ret. destruct (assoc_get p (m_idents x)) as [e|] eqn:EA; [|exact I].
-  assert (IN : exists k, In (k, e) (m_idents x)).
-  { clear - EA. induction (m_idents x) as [|[k a] l IH]; [discriminate|]. cbn in EA.
-    destruct (bytes_eqb k p); [injection EA as ->; exists k; left; reflexivity|].
-    destruct (IH EA) as (k0 & H). exists k0. right. exact H. }
-  destruct IN as (k & IN). eapply ID; eauto.
+  intros a <-. apply rd_ret. exact I.
 Qed.
 
 (* ---- the insertion range *)
